@@ -89,13 +89,13 @@ func c09RLWE(ctx *core.RunCtx) *c09Scheme {
 	ev := func(x any) *rlwe.Evaluator { return x.(*rlwe.Evaluator) }
 	logNs := []int{0, 1, 2, params.LogN() - 2, params.LogN() - 1}
 	sc.ops = []c09Op{
-		{name: "Automorphism", op1: []int{vNone}, ks: c09Rotations, needDeg1: true, callerSetsMeta: true, deg: degOne, call: func(e any, a *rlwe.Ciphertext, b any, k int, o *rlwe.Ciphertext) error {
+		{name: "Automorphism", op1: []int{vNone}, ks: c09Rotations, needDeg1: true, deg: degOne, call: func(e any, a *rlwe.Ciphertext, b any, k int, o *rlwe.Ciphertext) error {
 			return ev(e).Automorphism(a, params.GaloisElement(k), o)
 		}},
-		{name: "Automorphism(conjugate)", op1: []int{vNone}, needDeg1: true, callerSetsMeta: true, deg: degOne, call: func(e any, a *rlwe.Ciphertext, b any, k int, o *rlwe.Ciphertext) error {
+		{name: "Automorphism(conjugate)", op1: []int{vNone}, needDeg1: true, deg: degOne, call: func(e any, a *rlwe.Ciphertext, b any, k int, o *rlwe.Ciphertext) error {
 			return ev(e).Automorphism(a, params.GaloisElementOrderTwoOrthogonalSubgroup(), o)
 		}},
-		{name: "ApplyEvaluationKey", op1: []int{vNone}, needDeg1: true, callerSetsMeta: true, deg: degOne, call: func(e any, a *rlwe.Ciphertext, b any, k int, o *rlwe.Ciphertext) error {
+		{name: "ApplyEvaluationKey", op1: []int{vNone}, needDeg1: true, deg: degOne, call: func(e any, a *rlwe.Ciphertext, b any, k int, o *rlwe.Ciphertext) error {
 			return ev(e).ApplyEvaluationKey(a, cc.swk, o)
 		}},
 		{name: "Relinearize", op1: []int{vNone}, deg: degOne, call: func(e any, a *rlwe.Ciphertext, b any, k int, o *rlwe.Ciphertext) error {
@@ -104,7 +104,7 @@ func c09RLWE(ctx *core.RunCtx) *c09Scheme {
 			}
 			return ev(e).Relinearize(a, o)
 		}},
-		{name: "Trace", op1: []int{vNone}, ks: logNs, needDeg1: true, callerSetsMeta: true, deg: degOne, call: func(e any, a *rlwe.Ciphertext, b any, k int, o *rlwe.Ciphertext) error {
+		{name: "Trace", op1: []int{vNone}, ks: logNs, needDeg1: true, deg: degOne, call: func(e any, a *rlwe.Ciphertext, b any, k int, o *rlwe.Ciphertext) error {
 			return ev(e).Trace(a, k, o)
 		}},
 		{name: "PartialTracesSum", op1: []int{vNone}, ks: []int{1, 2}, needDeg1: true, deg: degOne, call: func(e any, a *rlwe.Ciphertext, b any, k int, o *rlwe.Ciphertext) error {
